@@ -85,6 +85,28 @@ func (p *c10PoolPeer) closeAll() {
 	p.mu.Unlock()
 }
 
+// c10PoolGet takes a connection to the harness peer from *pp. If Get fails (pool-level
+// resource accounting, not a C10 matter) the pool is replaced by a fresh one and Get is
+// retried once; only a failing fresh pool is a broken harness.
+func c10PoolGet(t *testing.T, run *vk.Run, ctx context.Context, pp **Pool, mk func() *Pool) *Conn {
+	for attempt := 0; ; attempt++ {
+		gctx, cancel := context.WithTimeout(ctx, 10*time.Second)
+		conn, err := (*pp).Get(gctx, "c10-node-b")
+		cancel()
+		if err == nil {
+			return conn
+		}
+		if attempt > 0 {
+			t.Fatalf("c10: Pool.Get on a fresh pool: %v", err)
+		}
+		run.Count("pool_get_failed_pool_replaced", 1)
+		run.Observe("pool_get_error", err.Error())
+		old := *pp
+		*pp = mk()
+		old.Close()
+	}
+}
+
 func TestVerifC10Pooled(t *testing.T) {
 	vk.Quiet()
 	run := vk.Start(t, "C10", "pooled")
@@ -99,8 +121,15 @@ func TestVerifC10Pooled(t *testing.T) {
 	if err := st.Set("tunnox:node:c10-node-b:addr", peerSide.ln.Addr().String(), time.Hour); err != nil {
 		t.Fatalf("c10: storage set: %v", err)
 	}
-	pool := NewPool(ctx, st, "c10-node-a", PoolConfig{MinConns: 1, MaxConns: 8, IdleTimeout: time.Hour, DialTimeout: 5 * time.Second})
-	defer pool.Close()
+	// MaxConns is far above anything the run needs: the pool's "active" accounting (which
+	// e.g. is not decremented when a broken connection is Released) is outside C10 and
+	// must never be what stops this monitor; c10PoolGet additionally falls back to a
+	// fresh pool should Get fail.
+	mkPool := func() *Pool {
+		return NewPool(ctx, st, "c10-node-a", PoolConfig{MinConns: 1, MaxConns: 4096, IdleTimeout: time.Hour, DialTimeout: 5 * time.Second})
+	}
+	pool := mkPool()
+	defer func() { pool.Close() }()
 
 	n := run.Pick(14, 120)
 	endings := []string{"poolclose", "broken-release", "poolclose", "release"}
@@ -116,13 +145,9 @@ func TestVerifC10Pooled(t *testing.T) {
 		run.Case(fmt.Sprintf("pooled|%d|%s", i, ending), det)
 
 		created0 := pool.Stats()["total_created"]
-		gctx, gcancel := context.WithTimeout(ctx, 10*time.Second)
-		conn, err := pool.Get(gctx, "c10-node-b")
-		gcancel()
-		if err != nil {
-			t.Fatalf("c10: Pool.Get: %v", err)
-		}
-		reused := pool.Stats()["total_created"] == created0
+		poolBefore := pool
+		conn := c10PoolGet(t, run, ctx, &pool, mkPool)
+		reused := pool == poolBefore && pool.Stats()["total_created"] == created0
 		peerTCP := peerSide.find(conn.LocalAddr().String())
 		if peerTCP == nil {
 			t.Fatalf("c10: accepted end of pooled connection %v not found", conn.LocalAddr())
